@@ -85,23 +85,28 @@ BOUNDS = {
     "quick": "symbolic reals: origin o=(oy,ox) and shift d=(dy,dx) (unbounded except where stated), array values, the origin-relative query "
              "coordinates / pixel pairs / radial centre. Enumerated: pixel scales from the dyadic set {(0.5,2),(1,1),(2,0.25),(0.25,0.5),(3,1)}; "
              "masks = 12 named masks up to 7x7 (ring with hole, off-centre blob, boundary-touching, two components, fully unmasked, single pixel, "
-             "row, cross, disc, corner) plus ALL masks (>=1 unmasked pixel, by forking) of every shape with <= 6 pixels; kernel (3,3), sub size 2, "
-             "resize pads (+2,+1)/(-1,-2), zoom buffers 0/1. ~75 mask-level outputs per mask. Pixel indices of translated points: util level with "
+             "row, cross, disc, corner) plus ALL masks (>=1 unmasked pixel, by forking) of every shape with <= 6 pixels; kernels (3,3) and the trivial "
+             "(1,1), (1,3); every over-sampling route (OverSamplerUniform, Grid2D.from_mask / uniform with over_sampling, BorderRelocator, "
+             "from_radial_bins, dataset grids, mapper data grids) with sub size 2 AND the trivial ones: 1 as int, an all-ones adaptive Array2D, "
+             "a mixed adaptive map 1,2,1,3,...; resize pads (+2,+1)/(-1,-2)/(0,0), rescale factors 2 and 1, zoom buffers 0/1, subtraction "
+             "offsets (0.25,-1.5) and (0,0). ~110 mask-level outputs per mask. Pixel indices of translated points: util level with "
              "unbounded symbolic points (shapes 5x8,6x9,3x3,4x4), class level with points at most one pixel outside the extent (2x3, 3x2). Radial "
-             "projection: 3 shape/scale/angle combinations, centre anywhere inside the extent. Mappers: rectangular (3x3 / 3x4 meshes) on 4 named "
-             "masks + all 2x2 masks, Delaunay (9 fixed origin-relative vertices) on 2 named masks, data grid = sub-size-2 over-sampled pixel centres. "
-             "Datasets (apply_mask / noise scaling / over sampling / trimming / simulator / S/N-limited noise map): 4 named masks, concrete dyadic "
-             "data and noise values. Overlay image mesh (2x2) on 2 named masks with |o|,|o+d| <= 1 (0.75) pixel per axis.",
+             "projection: 3 shape/scale/angle combinations, centre anywhere inside the extent, with / without projected centre, shape_slim 0/1/3. Mappers: rectangular (3x3 / 3x4 meshes) on 4 named "
+             "masks + all 2x2 masks, Delaunay (9 fixed origin-relative vertices, and a single triangle) on 4 named masks, data grid = over-sampled "
+             "pixel centres with sub size 2 / 1 / all-ones map / mixed map. "
+             "Datasets (apply_mask / noise scaling / over sampling on masked and unmasked datasets with all four sub-size options, default "
+             "argument, over sampling given at construction / trimming (3,3) and (1,1) / PSF 3x3, 1x1 and None / simulator with and without PSF "
+             "and Poisson noise / S/N-limited noise map with and without noise_limit_mask): 4 named masks, concrete dyadic data and noise values. "
+             "Overlay image mesh: 2x2 on 2 named masks with |o|,|o+d| <= 1 (0.75) pixel per axis; 3x3, 1x1, 1x3, 3x1, 2x3 on 5 named masks and "
+             "2x2 on all 2x3 masks with unbounded origin.",
     "thorough": "as quick plus ALL masks of 3x3, 2x4, 4x2, 2x5, 5x2; every named mask a second time with kernel (3,5), sub size 3, pads (+1,+4); more "
                 "shapes for points / radial; rectangular + Delaunay mappers on all 2x3 masks and more named masks; datasets on 8 named masks and all "
-                "2x3 and 2x2 masks; overlay additionally on blob6x7 (2x3 mesh) and all 2x2 masks.",
+                "2x3 and 2x2 masks; overlay additionally on blob6x7 (2x3 mesh), all 2x2 masks (bounded) and all 3x3 masks (3x2 and 1x1 meshes, unbounded).",
 }
 OUTSIDE = [
     "image_mesh.Hilbert / HilbertBalanced (scipy.interpolate.griddata / interp1d on the mask geometry): not executed symbolically",
     "pixel scales outside the dyadic set; symbolic pixel scales (non-linear terms o/s*s)",
-    "masks larger than the named list / the forked shapes; kernel shapes, sub sizes and pads other than the listed ones",
-    "Overlay mesh: origins more than one pixel away from (0,0) (only while finding overlay-mesh-origin is open: the defective code indexes "
-    "the mask with origin-dependent pixel indices, i.e. the number of paths grows with the bound)",
+    "masks larger than the named list / the forked shapes; kernel shapes, sub sizes (> 3), adaptive sub-size maps and pads other than the listed ones",
     "mappers: data grids other than the over-sampled pixel centres (e.g. deflected source-plane grids); Voronoi mappers (C library absent); "
     "border relocation (C18)",
     "dataset pixel values are concrete (medians, Poisson draws and scipy convolution need numbers); only origins are symbolic there",
@@ -123,7 +128,7 @@ ASSUMPTIONS = [
     "trimming errors of tiny arrays are accepted as results)",
     "mask bits explored by forking; known-finding regions are z3 predicates 'result identical at o and o+d' (origin ignored) per entry point",
 ]
-EXPLORER_OPTS = {"timeout_ms": 8000, "max_paths": 20000, "max_candidates": 40}
+EXPLORER_OPTS = {"timeout_ms": 8000, "max_paths": 20000, "max_candidates": 6}
 BUDGET_S = {"quick": 600, "thorough": 2300}
 
 # dyadic pixel scales (float arithmetic on them is exact); several are anisotropic on purpose
@@ -862,6 +867,7 @@ def POST_INSTALL():
             return np.random.poisson(np.asarray(shim.normalise(lam), dtype=float), size)
 
     shim.NPFacade.random = _Random()
+    _patch_concretize()
     import scipy.spatial
     if not getattr(scipy.spatial.Delaunay, "_c12", False):
         real_delaunay = scipy.spatial.Delaunay
@@ -905,6 +911,37 @@ def POST_INSTALL():
         return real_arctan2(self, _simplified(y), _simplified(x), **kw)
 
     shim.NPFacade.arctan2 = arctan2
+
+
+def _patch_concretize():
+    """work-around for an engine defect (reported): since Explorer.decide memoises conditions per path, a second
+    concretize_int of a term already concretised on this path creates no stack entry when first explored, but on re-execution
+    concretize_int reads the payload of the *next* stack entry (which belongs to a later decision) and can spin forever on a
+    memoised-False condition.  Return the value already chosen on this path instead (exactly what the memo would answer)."""
+    from symx import explore as EX
+    if getattr(EX.Explorer, "_c12_patched", False):
+        return
+    orig_begin, orig_conc = EX.Explorer._begin_path, EX.Explorer.concretize_int
+
+    def _begin_path(self):
+        orig_begin(self)
+        self._c12_conc, self._c12_keep = {}, []
+
+    def concretize_int(self, t):
+        t = z3.simplify(t)
+        if z3.is_int_value(t):
+            return t.as_long()
+        k = t.get_id()
+        if k in self._c12_conc:
+            return self._c12_conc[k]
+        v = orig_conc(self, t)
+        self._c12_conc[k] = v
+        self._c12_keep.append(t)      # keep the term alive so that its id is not reused
+        return v
+
+    EX.Explorer._begin_path = _begin_path
+    EX.Explorer.concretize_int = concretize_int
+    EX.Explorer._c12_patched = True
 
 
 def _simplified(x):
